@@ -192,6 +192,8 @@ VARIANTS = [
     V('suffix instead of prefix', 'B', _Q, "[:params.report_closest]", "[-params.report_closest:]", 'Q4'),
     V('distance from a different index', 'B', _Q, "GenomeMatch(db.genomes[i], dists[i])", "GenomeMatch(db.genomes[i], dists[0])", 'Q3'),
     V('entries filtered', 'B', _Q, "[:params.report_closest]]", "[:params.report_closest] if dists[i] < 1]", 'Q4'),
+    V('strict mode replaces the closest match by an equidistant primary match (seeded C09b)', 'B', _C, "\t\tresult.warnings.append('Primary genome match is not closest match.')",
+      "\t\tresult.closest_match = primary_match", 'Q2'),
     V("E: kind='mergesort'", 'E', _Q, "np.argsort(dists, kind='stable')", "np.argsort(dists, kind='mergesort')"),
     V('E: sorted(range(n), key=...)', 'E', _Q, "np.argsort(dists, kind='stable')", "sorted(range(len(dists)), key=dists.__getitem__)"),
     V('E: order named by a local', 'E', _Q, "\tclosest = [GenomeMatch(db.genomes[i], dists[i]) for i in np.argsort(dists, kind='stable')[:params.report_closest]]",
